@@ -1035,9 +1035,42 @@ private:
     // propagate from actual to formal parameters
     CRAB_LOG("inter-restrict",
              errs() << "Unifying formal and actual parameters\n";);
+    // The unifications must behave as a parallel assignment. If a
+    // formal parameter is also passed as another actual parameter
+    // (e.g., the recursive call foo(y,x) inside foo(x,y)) then
+    // assigning that formal first would destroy the value of the
+    // actual. In that case, we first copy the actuals to fresh
+    // variables.
+    std::vector<variable_t> actuals(cs.get_args().begin(), cs.get_args().end());
+    std::vector<variable_t> fresh_actuals;
+    {
+      bool clash = false;
+      for (unsigned i = 0, e = fdecl.get_inputs().size(); i < e && !clash; ++i) {
+        for (unsigned j = 0; j < e; ++j) {
+          if (i != j && fdecl.get_inputs()[i] == actuals[j]) {
+            clash = true;
+            break;
+          }
+        }
+      }
+      if (clash) {
+        for (unsigned i = 0, e = fdecl.get_inputs().size(); i < e; ++i) {
+          if (!(fdecl.get_inputs()[i] == actuals[i])) {
+            using varname_t = typename variable_t::varname_t;
+            auto &vfac = const_cast<varname_t *>(&(actuals[i].name()))
+                             ->get_var_factory();
+            variable_t fresh(vfac.get(), actuals[i].get_type());
+            inter_transformer_helpers<AbsDom>::unify(caller_dom, fresh,
+                                                     actuals[i]);
+            actuals[i] = fresh;
+            fresh_actuals.push_back(fresh);
+          }
+        }
+      }
+    }
     for (unsigned i = 0, e = fdecl.get_inputs().size(); i < e; ++i) {
       const variable_t &formal = fdecl.get_inputs()[i];
-      const variable_t &actual = cs.get_args()[i];
+      const variable_t &actual = actuals[i];
       if (!(formal == actual)) {
         CRAB_LOG("inter-restrict",
                  errs() << "\t" << formal << ":" << formal.get_type()
@@ -1049,6 +1082,9 @@ private:
 	  }
 	}
       }
+    }
+    if (!fresh_actuals.empty()) {
+      caller_dom.forget(fresh_actuals);
     }
     CRAB_LOG("inter-restrict", errs() << "Inv after formal/actual unification: "
                                       << caller_dom << "\n";);
@@ -1132,8 +1168,41 @@ private:
 
     // Wire-up outputs: propagate from callee's outputs to caller's
     // lhs of the callsite
-    for (unsigned i = 0, e = fdecl.get_outputs().size(); i < e; ++i) {
-      const variable_t &out_formal = fdecl.get_outputs()[i];
+    //
+    // Again, the unifications must behave as a parallel
+    // assignment. If the lhs of the callsite contains a variable
+    // with the same name as another output formal parameter then we
+    // first copy the output formals to fresh variables.
+    std::vector<variable_t> out_formals(fdecl.get_outputs().begin(),
+                                        fdecl.get_outputs().end());
+    std::vector<variable_t> fresh_out_formals;
+    {
+      bool clash = false;
+      for (unsigned i = 0, e = out_formals.size(); i < e && !clash; ++i) {
+        for (unsigned j = 0; j < e; ++j) {
+          if (i != j && cs.get_lhs()[i] == out_formals[j]) {
+            clash = true;
+            break;
+          }
+        }
+      }
+      if (clash) {
+        for (unsigned i = 0, e = out_formals.size(); i < e; ++i) {
+          if (!(out_formals[i] == cs.get_lhs()[i])) {
+            using varname_t = typename variable_t::varname_t;
+            auto &vfac = const_cast<varname_t *>(&(out_formals[i].name()))
+                             ->get_var_factory();
+            variable_t fresh(vfac.get(), out_formals[i].get_type());
+            inter_transformer_helpers<AbsDom>::unify(sum_out_dom, fresh,
+                                                     out_formals[i]);
+            out_formals[i] = fresh;
+            fresh_out_formals.push_back(fresh);
+          }
+        }
+      }
+    }
+    for (unsigned i = 0, e = out_formals.size(); i < e; ++i) {
+      const variable_t &out_formal = out_formals[i];
       const variable_t &out_actual = cs.get_lhs()[i];
       if (!(out_formal == out_actual)) {
         CRAB_LOG("inter-extend", crab::outs()
@@ -1142,6 +1211,9 @@ private:
         inter_transformer_helpers<AbsDom>::unify(sum_out_dom, out_actual,
                                                  out_formal);
       }
+    }
+    if (!fresh_out_formals.empty()) {
+      sum_out_dom.forget(fresh_out_formals);
     }
 
     // Wire-up inputs (propagate from callee's inputs to caller's
